@@ -34,7 +34,7 @@ from . import c14_table as T
 
 MANIFEST = {
     "technique": "TLA+ contract table (field -> type, range/enum, default) with cross-field rules; TLC enumerates single-fault, pairwise-fault and all-valid corner vectors with the contract's verdict; every vector is concretised and replayed on all validator API variants in-process, on the validate CLI in subprocesses with different hash seeds, and accepted configs are executed for 2 turns on 2 worlds",
-    "text": "Exhaustive enumeration (TLC) of all single and pairwise deviations from the omitted-everything config over the frozen v1 contract table (184 fields x 12 leaf classes, 50 sections x 3 structural classes, 8 cross-field rules, corner vectors), bound to the code by running each vector through validate_config / validate_config_api / validate_config_verbose / the kwargs compat form / the normaliser and the validate CLI under a different PYTHONHASHSEED, comparing exception types, input immutability, verdicts and messages with each other and with the contract's verdict, checking every normalised value against the table's ranges, and executing turns on two small worlds under every accepted config.",
+    "text": "Exhaustive enumeration (TLC) of all single and pairwise deviations from the omitted-everything config over the frozen v1 contract table (185 fields x 12 leaf classes, 50 sections x 3 structural classes, 9 cross-field rules, corner vectors), bound to the code by running each vector through validate_config / validate_config_api / validate_config_verbose / the kwargs compat form / the normaliser and the validate CLI under a different PYTHONHASHSEED, comparing exception types, input immutability, verdicts and messages with each other and with the contract's verdict, checking every normalised value against the table's ranges, and executing turns on two small worlds under every accepted config.",
     "note": "The contract table is transcribed once from the operator-facing messages/defaults/docs (citations per row in c14_table.py) and frozen in the spec. Where the contract documents coercion without an outcome (non-numeric text, NaN/inf or containers for int/bool fields, non-dict sections) the spec's verdict is UNSPEC: either verdict conforms, but an accepted value must normalise into the documented range and the engine must run. At most two simultaneous deviations per vector (plus corner vectors); one concrete value per class.",
 }
 
@@ -279,14 +279,16 @@ def in_range(f, v) -> Optional[str]:
             if isinstance(v, float) and v != v:
                 return "nan"
             return "type"
-        if (lo is not None and v < lo) or (hi is not None and v > hi):
+        if (lo is not None and v < lo) or (hi is not None and v > hi) or (f["cap"] is not None and v > f["cap"]):
             return "range"
         return None
     if k == "float":
         if isinstance(v, bool) or not isinstance(v, (int, float)):
             return "type"
         if v != v:
-            return "nan" if (lo is not None or hi is not None) else None
+            return "nan"           # "<path> must be a finite number"
+        if math.isinf(v):
+            return "inf"
         if lo is not None and (v < lo or (f["lox"] and v == lo)):
             return "inf" if math.isinf(v) else "range"
         if hi is not None and (v > hi or (f["hix"] and v == hi)):
@@ -329,7 +331,7 @@ def unbounded(f) -> bool:
 def awr_cause(f, why: str) -> str:
     """one cause per defect class: 'unchecked' (key passes through unexamined), 'nan' (NaN slips through a
     documented numeric bound), 'range' (value outside the documented range/enum, incl. +-inf / huge), 'type'"""
-    if unbounded(f):
+    if unbounded(f) and why not in ("nan", "inf"):
         return "unchecked"
     if why == "nan" and f["kind"] in ("int", "float", "map"):
         return "nan"
@@ -555,7 +557,7 @@ def eval_vector(case, wd: str, opts: Dict[str, Any]) -> Dict[str, Any]:
                         want = f"{sec}.{key}" if sec else f"{key}"
                         hit = any(m.startswith(want + " ") and "unknown" in m for m in msgs)
                         if sc == "nonstr" and T.SECTIONS[e - T.NF - 1][1] == 2:
-                            hit = any(m.startswith(sec + " ") and "keys must be strings" in m for m in msgs)
+                            hit = any(m.startswith(sec + " ") for m in msgs)     # "<map> keys must be strings" / "<map> must be a mapping of name -> number"
                 if not hit:
                     missing.append(elem_name(e))
                     missing_el.append([e, c])
